@@ -299,8 +299,15 @@ const ctrlName = "CTL"
 func ctrlTransformSpec(in string) string { return "t:" + in }
 
 func ctrlRegister(rt *runtime.Runtime, kind string) error {
+	var qopts []qtransform.ControllerOption
+
+	if kind == "qtransform-ignore" {
+		// keep the output alive while other parties still hold finalizers on the tearing-down input
+		qopts = append(qopts, qtransform.WithIgnoreTeardownUntil())
+	}
+
 	switch kind {
-	case "qtransform":
+	case "qtransform", "qtransform-ignore":
 		return rt.RegisterQController(qtransform.NewQController(
 			qtransform.Settings[*CIn, *COut]{
 				Name:              ctrlName,
@@ -312,7 +319,7 @@ func ctrlRegister(rt *runtime.Runtime, kind string) error {
 					return nil
 				},
 			},
-			qtransform.WithConcurrency(1),
+			append(qopts, qtransform.WithConcurrency(1))...,
 		))
 	case "transform":
 		return rt.RegisterController(transform.NewController(
@@ -344,7 +351,7 @@ func ctrlRegister(rt *runtime.Runtime, kind string) error {
 	return fmt.Errorf("unknown controller kind %q", kind)
 }
 
-var ctrlKinds = []string{"qtransform", "transform", "cleanup", "destroy"}
+var ctrlKinds = []string{"qtransform", "transform", "cleanup", "destroy", "qtransform-ignore"}
 
 func (e *ctrlEng) Gen(r *Rand, thorough bool, idx int) Case {
 	kind := ctrlKinds[idx%len(ctrlKinds)]
